@@ -883,6 +883,7 @@ theorem step_genInv (cfg : Cfg) (n : Node) (op : Op) (h : GenInv n) (hop : op â‰
           (fun s => by split <;> exact âŸ¨rfl, rfl, rflâŸ©) h
         exact genInv_same rfl rfl rfl rfl h2
       Â· exact h
+    | nop => exact h
     | coldreset => simp [restartLike] at hnr
     | fabrecover i => simp [restartLike] at hnr
     | tick secs => exact genInv_same rfl rfl rfl rfl h
